@@ -143,6 +143,35 @@ class Ctx:
             lock.close()
         return BIN
 
+    # --------------------------------------------------------------- Apalache
+    def apalache(self, module, cfg, init, inv, length, timeout=1800, expect_error=False):
+        """One bounded check of spec/apalache/<module>.tla with Apalache: from `init`, `length` steps, invariant `inv`.
+        Used for inductive-invariant proofs (init = the invariant, length = 1).  Returns True iff no error was found;
+        anything but a clean OK / a reported invariant violation is a tool error."""
+        self._n += 1
+        d = os.path.join(SPEC, "apalache")
+        outdir = os.path.join(self.scratch, "apalache%d" % self._n)
+        t = time.time()
+        try:
+            r = sh(["timeout", str(timeout), "apalache-mc", "check", "--config=" + cfg, "--init=" + init, "--inv=" + inv,
+                    "--length=%d" % length, "--out-dir=" + outdir, module + ".tla"], cwd=d)
+        finally:
+            pass
+        ok = "EXITCODE: OK" in r.stdout and "The outcome is: NoError" in r.stdout
+        err = "The outcome is: Error" in r.stdout
+        self.cov["spec_runs"].append({"tool": "apalache", "module": module, "cfg": cfg, "init": init, "inv": inv, "length": length,
+                                      "outcome": "NoError" if ok else ("Error" if err else "?"), "wall_s": round(time.time() - t, 1)})
+        shutil.rmtree(outdir, ignore_errors=True)
+        if not ok and not err:
+            raise ToolError("apalache %s %s/%s did not finish (timeout %ds?):\n%s" % (module, init, inv, timeout, r.stdout[-1500:]))
+        if expect_error:
+            if not err:
+                raise ToolError("apalache negative control %s %s/%s was NOT refuted" % (module, init, inv))
+            return False
+        if err:
+            raise ToolError("apalache: %s is not inductive / does not imply %s in %s (%s):\n%s" % (init, inv, module, cfg, r.stdout[-1500:]))
+        return True
+
     # -------------------------------------------------------------------- TLC
     def tlc(self, module, cfg=None, workers=6, timeout=900, simulate=None, env=None,
             coverage=True, dfs=False, xmx="6g", count=True, expect_violation=None, depth=None,
